@@ -8,6 +8,9 @@ import concurrent.futures as cf, json, os, shutil, subprocess, sys, time
 ROOT = os.path.dirname(os.path.dirname(os.path.abspath(__file__)))
 args = sys.argv[1:]
 jobs = 2
+sample = None
+if "--sample" in args:
+    i = args.index("--sample"); sample = int(args[i + 1]); del args[i:i + 2]
 if "-j" in args:
     i = args.index("-j"); jobs = int(args[i + 1]); del args[i:i + 2]
 st = os.path.join(ROOT, "selftest")
@@ -34,7 +37,14 @@ def one(prop, name):
     finally:
         shutil.rmtree(scratch, ignore_errors=True)
 
-todo = [(p, n) for p in props if os.path.isdir(os.path.join(st, p)) for n in sorted(os.listdir(os.path.join(st, p))) if n.endswith(".diff")]
+todo = []
+for p in props:
+    if os.path.isdir(os.path.join(st, p)):
+        names = sorted(n for n in os.listdir(os.path.join(st, p)) if n.endswith(".diff"))
+        if sample is not None and len(names) > sample:  # deterministic spread over the alphabetical list
+            step = len(names) / sample
+            names = [names[int(k * step)] for k in range(sample)]
+        todo += [(p, n) for n in names]
 with cf.ThreadPoolExecutor(max_workers=jobs) as ex:
     futs = {ex.submit(one, p, n): (p, n) for p, n in todo}
     for f in cf.as_completed(futs):
